@@ -199,4 +199,7 @@ Definition tracker_calls (s : scte) : Res unit :=
   let? st := tracker_feed State.NewState ds in
   ign (State.Open st).
 
+(* scte35.SCTE35AccumulatorDoneFunc(b) = psi.PmtAccumulatorDoneFunc(b) (doc.go) *)
+Definition scte35_accumulator_done_func (b : bytes) : Res bool := Pmt.done_func b.
+
 End Printers.
